@@ -76,9 +76,10 @@ deriving Repr, Inhabited
 `question` = base `Question` (`build_xml` returns None), `control` = Input/Trigger/Upload/Range
 question (`build_xml = _build_xml`), `select` = `MultipleChoiceQuestion`, `inert` = a survey element
 that is neither Question nor Section (ExternalInstance, EntityDeclaration), `osm` = `OsmUploadQuestion`
-(an upload question whose `Tag` children render a `<tag><label/></tag>` each), `other` = not modelled. -/
+(an upload question whose `Tag` children render a `<tag><label/></tag>` each), `tag` = such a `Tag` (it has
+only `name` and `label`; visited by `_setup_translations` since eb9b6f4), `other` = not modelled. -/
 inductive Cls where
-  | question | control | select | group | repeat | inert | osm | other
+  | question | control | select | group | repeat | inert | osm | tag | other
 deriving Repr, DecidableEq, Inhabited
 
 structure ElemD where
@@ -121,13 +122,24 @@ structure Flat where
   hidden : Bool
 deriving Repr, Inhabited
 
+/-- the `Tag` child of an osm question as an element of its own: name and label, nothing else -/
+def tagD (nl : Str × Txt) : ElemD :=
+  { cls := .tag, name := nl.1, type := [], label := nl.2, hint := .none, guidance := .none, media := none,
+    msgs := [], hasCalc := false, trigger := false, bodyless := false, flat := false, appearance := none,
+    itemset := none, list := [], hasChoices := false }
+
+/-- the `Tag` children of an osm question (`OsmUploadQuestion.iter_descendants` with
+`iter_into_section_items=True`, question.py:527-541), xpath = question xpath + tag name -/
+def tagFlats (x : Str) (h : Bool) (d : ElemD) : List Flat :=
+  d.tags.map fun nl => ⟨x ++ '/' :: nl.1, tagD nl, h⟩
+
 mutual
 /-- `iter_descendants` (pre-order) with `get_xpath` = "/".join(names of the lineage) -/
 def flatten (pre : Str) (hid : Bool) : Elem → List Flat
   | .node d kids =>
     let x := pre ++ '/' :: d.name
     let h := hid || (d.cls == .group && d.bodyless)
-    ⟨x, d, h⟩ :: flattenL x h kids
+    ⟨x, d, h⟩ :: (tagFlats x h d ++ flattenL x h kids)
 def flattenL (pre : Str) (hid : Bool) : List Elem → List Flat
   | [] => []
   | e :: es => flatten pre hid e ++ flattenL pre hid es
@@ -357,8 +369,8 @@ deriving Repr, DecidableEq, Inhabited
 
 def Tr.ids (t : Tr) : List Str := t.texts.map (·.1)
 
-/-- `label_name.partition(":")[-1]` -/
-def labelType (p : Str) : Str := (p.dropWhile (· != ':')).drop 1
+/-- `label_name.rpartition(":")[-1]` (ac4d9ef: what follows the *last* colon) -/
+def labelType (p : Str) : Str := (p.reverse.takeWhile (· != ':')).reverse
 
 /-- does `insert_output_values` leave the text alone?  (no `${…}` to turn into `<output>`, no
 `instance(` expression) — only then the model states the written value -/
@@ -562,11 +574,6 @@ def optLabeled (o : Opt) : Bool := o.label.truthy || mediaTruthy o.media
 /-- complement of the open defect F6: in a list that requires itext every choice has a label or media -/
 def choicesLabeled (x : Survey) : Bool :=
   x.lists.all fun l => !requiresItext l || l.options.all optLabeled
-
-/-- complement of the open defect F45: no osm tag has a translated (dict) label — the tags' labels are
-rendered with `xml_label` but `_setup_translations` never visits `Tag` elements -/
-def tagsPlain (x : Survey) : Bool :=
-  (flats x).all fun f => f.d.tags.all fun nl => !nl.2.isDict
 
 /-! ### the property, as a decidable predicate on an observation (model's or implementation's) -/
 
